@@ -24,7 +24,7 @@ CONFIG = dict(
     min_nontrivial={"quick": 5000, "thorough": 100000},
     nshards={"quick": 16, "thorough": 16},
     timeout={"quick": 900, "thorough": 5400},
-    required_counters=("floors_checked", "edited_objects_checked", "helper_edits_checked"),
+    required_counters=("floors_checked", "loader_faces_checked", "edited_objects_checked", "helper_edits_checked"),
 )
 
 RANK = {"LIKELY_SAFE": 0, "POSSIBLY_UNSAFE": 1, "SUSPICIOUS": 2, "LIKELY_UNSAFE": 3,
@@ -225,6 +225,8 @@ def check(ctx, f, analysis, label, data):
     agg.hist("verdicts", sev)
     if RANK[sev] >= rank and (not label.startswith(("import-", "call-")) or int(ch[:2], 16) % 4 == 0):
         edited_object(ctx, f, analysis, label, data, rank, reason, sev)
+    if RANK[sev] >= rank and (not label.startswith(("import-", "call-")) or int(ch[:2], 16) % 4 == 1):
+        loader_face(ctx, label, data, rank, reason, sev)
     if RANK[sev] < rank:
         want = [k for k, v in RANK.items() if v == rank][0]
         agg.violation(reason, f"verdict {sev} is below the floor {want} required because the VM would "
@@ -279,6 +281,60 @@ def edited_object(ctx, f, analysis, label, data, rank, reason, fresh_sev):
                           {"label": label, "hex": data.hex(), "verdict": sev, "floor": want, "warm": warm, "edit": how,
                            "base_hex": base.hex()})
             return
+
+
+class FakePickle:
+    """Stands in for the `pickle` module inside fickling.loader: records, never unpickles."""
+    calls = []
+
+    @classmethod
+    def loads(cls, data, *a, **k):
+        cls.calls.append(bytes(data))
+        return ("vp-not-loaded", len(data))
+
+
+BENIGN_FIRST = (b"\x80\x02]q\x00(K\x01K\x02e.", b"N.", b"\x80\x04\x95\x05\x00\x00\x00\x00\x00\x00\x00\x8c\x01a\x94.")
+
+
+def loader_face(ctx, label, data, rank, reason, fresh_sev):
+    """The verdict as the checked loader applies it, for deliveries where the dangerous pickle is not at the start
+    of the underlying buffer: behind a header, behind an accepted benign pickle (second load from one stream)."""
+    import io
+    import fickling.loader as loader
+    from fickling.exception import UnsafeFileError
+    agg = ctx.agg
+    loader.pickle = FakePickle
+    want = [k for k, v in RANK.items() if v == rank][0]
+    for first in (BENIGN_FIRST[int(h(data)[2:4], 16) % len(BENIGN_FIRST)],):
+        for how in ("seek-past", "load-first-then-second", "bytearray-slice"):
+            FakePickle.calls.clear()
+            try:
+                if how == "bytearray-slice":
+                    src = bytearray(data)
+                else:
+                    src = io.BytesIO(first + data)
+                    if how == "seek-past":
+                        src.seek(len(first))
+                    else:
+                        loader.load(src)          # the benign one: accepted (recorded, not unpickled)
+                loader.load(src)
+                outcome = "returned"
+            except UnsafeFileError as e:
+                sevname = (e.info or {}).get("severity") if isinstance(e.info, dict) else None
+                outcome = sevname if sevname in RANK else "unsafe-without-severity"
+            except RecursionError:
+                return
+            except Exception as e:
+                agg.hist("loader_face_raised", type(e).__name__)
+                continue
+            agg.count("loader_faces_checked")
+            if outcome == "returned" or (outcome in RANK and RANK[outcome] < rank):
+                agg.violation("floor-lost-through-loader",
+                              f"checked loader, dangerous pickle delivered as {how}: outcome {outcome} (fresh parse: {fresh_sev}); "
+                              f"floor is {want} ({reason})",
+                              {"label": label, "hex": data.hex(), "verdict": outcome, "floor": want, "delivery": how,
+                               "first_hex": first.hex()})
+                return
 
 
 HELPERS = [
